@@ -191,7 +191,7 @@ package regattaserver
 //@ func snapshot.NewTemp
 //@   assumed
 //@   results f, err
-//@   ensures err == nil ==> f != nil && fresh(f) && f.File != nil && fresh(f.File) && f.nmsg == 0
+//@   ensures err == nil ==> f != nil && fresh(f) && f.File != nil && fresh(f.File) && f.w != nil && f.r != nil && len(f.lenBuff) == 8 && fresh(f.lenBuff)
 //@   modifies nothing
 // ActiveTable.Snapshot: the state machine writes the pairs of one point-in-time view into the writer
 // and answers with the applied index of that same view (fsm.commandSnapshot, C07.capture.*)
@@ -200,15 +200,6 @@ package regattaserver
 //@   results resp, err
 //@   ensures err == nil ==> resp != nil && fresh(resp)
 //@   modifies writer.sdata, writer.slen, writer.nmsg, writer.msg
-// snapshotFile.Write: one message per call (framing: C18)
-//@ func snapshot.(*snapshotFile).Write
-//@   assumed
-//@   params s, p
-//@   results n, err
-//@   requires s != nil
-//@   ensures err == nil && len(p) > 0 ==> s.nmsg == old(s.nmsg) + 1 && s.msg[old(s.nmsg)] == old(bytesOf(p))
-//@   ensures forall i int :: 0 <= i && i < old(s.nmsg) ==> s.msg[i] == old(s.msg[i])
-//@   modifies s.nmsg, s.msg
 //@ func snapshot.(*snapshotFile).Sync
 //@   assumed
 //@   modifies nothing
